@@ -456,7 +456,7 @@ def v_diff(ex, st, o, args, kwargs, node):
 @vm("searchsorted")
 def v_searchsorted(ex, st, o, args, kwargs, node):
     v = st.get(o)
-    q = st.get(args[0])
+    q = unwrap_opt(ex, st, st.get(args[0]), "searchsorted")
     side = st.get(args[1]) if len(args) > 1 else st.get(kwargs.get("side", "left"))
     used(ex, "searchsorted(left|right) on a non-decreasing vector = partition point")
     a = fresh(I, "a")
@@ -1286,3 +1286,10 @@ def sp_count(ex, st, args, kwargs, node):
     if is_z3(r):
         st.assume(r >= 0)
     return r
+
+
+@builtin("some")
+def sp_some(ex, st, args, kwargs, node):
+    """payload of an optional value (meaningful only where it is not None)"""
+    v = st.get(args[0])
+    return v.val if isinstance(v, OptV) else v
